@@ -40,9 +40,27 @@ def boolrows(t, n):
     return [[int(bool(v)) for v in r] for r in rows(t, n)]
 
 
+GENS = {}        # id(generator object) -> the seed it was created with (generators made during the current run)
+GEN_OBJS = []
+
+
+def newgen(seed):
+    g = gen(seed)
+    GENS[id(g)] = int(seed)
+    GEN_OBJS.append(g)
+    return g
+
+
+def gid(g):
+    """which generator an encoder reports: None (global RNG), the seed of a generator made in this run, or 'unknown'"""
+    if g is None:
+        return None
+    return GENS.get(id(g), "unknown")
+
+
 def getters(enc, k):
     return [enc.steps, enc.dt, enc.frequency, enc.compensated if k == "hpe" else None,
-            enc.refrac if k == "hpe" else None, enc.duration]
+            enc.refrac if k == "hpe" else None, enc.duration, gid(enc.generator)]
 
 
 def apply_assignments(enc, case, trace):
@@ -52,7 +70,7 @@ def apply_assignments(enc, case, trace):
         err, extra = None, None
         try:
             if attr == "generator":
-                g2 = gen(val)
+                g2 = None if val is None else newgen(val)
                 enc.generator = g2
                 extra = enc.generator is g2
             else:
@@ -63,24 +81,51 @@ def apply_assignments(enc, case, trace):
         trace.append([err, getters(enc, k), extra])
 
 
+def optional(case, g, names):
+    """keyword arguments of a constructor / functional encoder; those listed in case["omit"] are left out, so the
+    DOCUMENTED defaults (hard-coded in the harness: refrac=None, compensate=True, generator=None) apply"""
+    if "gen0" in case:
+        GENS[id(g)] = int(case["seed"])
+        g = None if case["gen0"] is None else newgen(case["gen0"])
+    full = {"refrac": case.get("refrac"), "compensate": case.get("comp"), "generator": g}
+    return {k: v for k, v in full.items() if k in names and k not in case.get("omit", [])}
+
+
 def build(case, g):
     if "ctor" in case:
         case = dict(case, **case["ctor"])
     k = case["kind"]
     if k == "hpe":
-        return HomogeneousPoissonEncoder(case["steps"], case["dt"], case["freq"], refrac=case["refrac"],
-                                         compensate=case["comp"], generator=g)
+        return HomogeneousPoissonEncoder(case["steps"], case["dt"], case["freq"],
+                                         **optional(case, g, ("refrac", "compensate", "generator")))
     if k == "hpa":
-        return HomogeneousPoissonApproxEncoder(case["steps"], case["dt"], case["freq"], generator=g)
+        return HomogeneousPoissonApproxEncoder(case["steps"], case["dt"], case["freq"], **optional(case, g, ("generator",)))
     if k == "pie":
-        return PoissonIntervalEncoder(case["steps"], case["dt"], case["freq"], generator=g)
+        return PoissonIntervalEncoder(case["steps"], case["dt"], case["freq"], **optional(case, g, ("generator",)))
     raise AssertionError(k)
 
 
-def call(case, g, out=None):
+def before_encoding(case, second_run):
+    """generator semantics: with generator None the output is a function of the GLOBAL RNG state (seeded here), with a
+    private generator it is a function of that generator only.  In the second run everything that must NOT matter
+    is perturbed: the private generators that were assigned earlier (global case), the global RNG (private case)."""
+    if "gen0" not in case:
+        return
+    if case["gen_final"] is None:
+        if second_run:
+            for g in GEN_OBJS:
+                torch.rand(7, generator=g)
+        torch.manual_seed(case["gseed"])
+    else:
+        torch.manual_seed(case["gseed"] + (1 if second_run else 0))
+
+
+def call(case, g, out=None, second_run=False):
     """returns the encoder's return value (tensor or iterator); may raise (constructor errors included)"""
     k = case["kind"]
     shape = case["shape"]
+    GENS.clear()
+    GEN_OBJS.clear()
     if k in ("hpe", "hpa", "pie"):
         enc = build(case, g)
         KEEP.append(enc)
@@ -92,13 +137,16 @@ def call(case, g, out=None):
             apply_assignments(enc, case, trace)
             if out is not None:
                 out["stage"] = "forward"
+        before_encoding(case, second_run)
+        if out is not None:
+            out["global_state0"] = torch.get_rng_state().clone()
         return enc(tens(case["x"], shape), online=case["online"])
     if k == "f_inhomog":
         return nf.inhomogeneous_poisson_bernoulli_approx(tens(case["x"], [case["steps"]] + shape), case["dt"], generator=g)
     inp = tens(case["x"], shape)
     if k == "f_exp":
         f = nf.homogeneous_poisson_exp_interval_online if case["online"] else nf.homogeneous_poisson_exp_interval
-        return f(inp, case["steps"], case["dt"], refrac=case["refrac"], compensate=case["comp"], generator=g)
+        return f(inp, case["steps"], case["dt"], **optional(case, g, ("refrac", "compensate", "generator")))
     if k == "f_pint":
         f = nf.poisson_interval_online if case["online"] else nf.poisson_interval
         return f(inp, case["steps"], case["dt"], generator=g)
@@ -117,6 +165,10 @@ class Replayer:
         for attr, val in case.get("assign", []):
             if attr == "generator":
                 seed = val          # the draws come from the generator assigned last
+        if "gen0" in case:
+            # generator None: the global RNG after torch.manual_seed(gseed) - the same mt19937 stream as a private
+            # generator seeded with gseed
+            seed = case["gseed"] if case["gen_final"] is None else case["gen_final"]
         self.g = gen(seed)
         k = case["kind"]
         self.family = {"hpe": "exp", "f_exp": "exp", "pie": "pint", "f_pint": "pint"}.get(k, "bern")
@@ -314,7 +366,7 @@ def run_once(case, want_draws, gather=False):
     try:
         with stub:
             out["stage"] = "call"
-            res = call(case, g, out)
+            res = call(case, g, out, second_run=gather)
             if torch.is_tensor(res):
                 out["shape_ok"] = list(res.shape) == [int(case["steps"])] + list(case["shape"])
                 out["dtype_ok"] = res.dtype == torch.bool
@@ -347,6 +399,9 @@ def run_once(case, want_draws, gather=False):
         out["status"] = "raised"
         out["exc"] = exc_code(e)
         out["msg"] = f"{type(e).__name__}: {e}"[:240]
+    st0 = out.pop("global_state0", None)
+    if st0 is not None:
+        out["global_rng_consumed"] = not torch.equal(torch.get_rng_state(), st0)
     if stub.log is not None:
         out.update(draws_from_log(case, stub.log, n))
         if "draws_steps_all" in out:
